@@ -1,6 +1,7 @@
 CONSTANTS
   Fam = {"v4", "v6"}
   RouteIds = {1}
+  Comms = {FALSE}
   Reasons = {"io", "remote_cease", "remote_hard_reset", "remote_noncease", "local_cease", "local_noncease", "hold", "admin", "admin_down_flag"}
   Dev = {}
 SPECIFICATION Spec
